@@ -49,7 +49,7 @@ PROBES = ["waiter_parked_on_thread_lock_during_swap", "two_first_starts_racing",
           "query_while_other_task_waits", "fork", "spawn", "screen_redraw_step",
           "reply_later_than_timeout", "stale_reply_waiting_in_queue", "foreign_reply_seen_by_query",
           "first_start_with_queries_disabled", "no_active_terminal",
-          "process_lock_creation_failed"]
+          "process_lock_creation_failed", "synchronized_call_raised"]
 COMPONENTS = {
     "real": ["term_image.utils.lock_tty / query_terminal / read_tty / write_tty / get_cell_size",
              "_process_start_wrapper / _process_run_wrapper and the import-time Process patching "
@@ -64,6 +64,10 @@ ASSUMPTIONS = [
 ]
 
 DA1 = b"\x1b[?62;4;22c"
+
+
+class ProbeFailure(Exception):
+    """raised by a synchronized probe body on purpose"""
 
 
 class Monitor:
@@ -125,7 +129,11 @@ def gen_program(ch, depth, budget, mode="getters"):
             kinds.append((3, "start"))
         kind = ch.weighted("step", kinds)
         if kind == "probe":
-            steps.append(("probe", ch.int("nest", 1, 3)))
+            if ch.bool("raises", 0.15):
+                # a synchronized function that fails: the caller survives and goes on
+                steps.append(("probe_raise", ch.int("nest", 1, 2)))
+            else:
+                steps.append(("probe", ch.int("nest", 1, 3)))
         elif kind == "start":
             budget[0] -= 1
             nthreads = ch.int("child_threads", 1, 2)
@@ -292,14 +300,16 @@ def run(ch, ctx, fault=None):
                           "late")
 
         def make_probe(utils, name):
-            def body(depth):
+            def body(depth, fail=False):
                 mon.enter(name)
                 try:
                     k.yield_point("probe-body")
                     if depth > 1:
                         ctx.probe("nested_reentrant_call")
-                        probe(depth - 1)
+                        probe(depth - 1, fail)
                     k.yield_point("probe-body2")
+                    if fail and depth <= 1:
+                        raise ProbeFailure()
                 finally:
                     mon.exit(name)
             probe = utils.lock_tty(body)
@@ -312,6 +322,11 @@ def run(ch, ctx, fault=None):
                 kind = st[0]
                 if kind == "probe":
                     probe(st[1])
+                elif kind == "probe_raise":
+                    try:
+                        probe(st[1], True)
+                    except ProbeFailure:
+                        ctx.probe("synchronized_call_raised")
                 elif kind == "query":
                     qn[0] += 1
                     n = qn[0]
